@@ -412,7 +412,7 @@ def _reset():
     default_reset()
 
 
-SYMDICT_FUNCTIONS = ["ReceivingMessage.__init__", "ReceivingMessage.add_payload"]
+SYMDICT_FUNCTIONS = ["ReceivingMessage.*"]      # every method of the decoder: its empty dict displays may get symbolic keys
 
 SPECS = [
     Spec("roundtrip", h_roundtrip,
